@@ -9,6 +9,7 @@ import Gts.Spec.LocCanon
 import Gts.Spec.Marks
 import Gts.Spec.MarkGuard
 import Gts.Spec.CanonGuard
+import Gts.Spec.ParseK3
 namespace Gts
 
 def hasEmptyParts : Loc → Bool
@@ -113,6 +114,11 @@ def evalCore (op : String) (args : List Sexp) : Option String :=
   | "k3.reverse", [l, n] => do pure (boolStr ((← decLoc? l).reverseK3 (← decInt? n)))
   | "k3.normalize", [l, n] => do pure (boolStr ((← decLoc? l).normalizeK3 (← decInt? n)))
   | "k3.join", ls => do pure (boolStr (Loc.joinK3 (← ls.mapM decLoc?)))
+  | "k3.parse", [t] => do
+      match parseLocationK3 (← decBytes? t) with
+      | .ok (l, b, rest) => pure (boolStr b ++ " " ++ encLoc l ++ " " ++ encBytes rest)
+      | .error .fail => pure "ERR"
+      | .error .panic => pure "PANIC"
   | "k3.adj", ls => do pure (boolStr (Loc.noAdjCompl (Loc.flatJList (← ls.mapM decLoc?))))
   | "k3.le", [l, m] => do pure (boolStr (Loc.coordsLe (← decInt? m) (← decLoc? l)))
   | "k3.revin", [l, n] => do pure (boolStr (Loc.revIn (← decInt? n) (← decLoc? l)))
